@@ -456,6 +456,22 @@ def zone_tables(rng, nrand, ndyadic):
         if rng.random() < 0.5:    # the same at the right end
             xs = [-(v) for v in reversed(xs)]; ys = list(reversed(ys)); side = "R"
         out.append((fix_increasing(xs), ys, side))
+    for it in range(max(2, nrand // 3)):
+        # a turning point in BOTH continued edge cubics: a left-type triple, a gap, a mirrored left-type triple
+        def triple():
+            h0, h1 = (lambda h: (h, h))(rng.uniform(0.2, 5)) if rng.random() < 0.5 else (rng.uniform(0.2, 5), rng.uniform(0.2, 5))
+            s0 = rng.choice([-1.0, 1.0]) * 10.0 ** rng.uniform(-1, 1)
+            dl = rng.uniform(0.002, 0.02)
+            y1 = s0 * h0
+            return [0.0, h0, h0 + h1], [0.0, y1, y1 + s0 * (2 * h0 + h1) / h0 * (1 - dl) * h1]
+        xa, ya = triple()
+        xb, yb = triple()
+        gap = rng.uniform(0.5, 5)
+        xr = [xa[-1] + gap + (xb[-1] - v) for v in reversed(xb)]
+        off = rng.uniform(-3, 3)
+        yr = [off + v for v in reversed(yb)]
+        x0 = rng.uniform(-10, 10)
+        out.append((fix_increasing([x0 + v for v in xa] + [x0 + v for v in xr]), ya + yr, "B"))
     for it in range(ndyadic):
         # exactly representable parabolic data f = al (x - xv)^2 + be with the vertex xv strictly inside the zone:
         # every Steffen quantity is exact, a == 0.0 bit for bit -> the A == 0 branch of Stationary_Values
@@ -482,7 +498,7 @@ def zone_hist_request(rng, tb):
     ordering relative to the turning point, Set_Prefactor / Multiply of either sign before and between the queries"""
     xs, ys, side = tb
     n = len(xs)
-    if side == "L":
+    if side in ("L", "B"):
         knot, edge, j = xs[0], xs[0] - 0.0095 * (xs[1] - xs[0]), 0
         st = stationary_points(xs, ys, j, edge, knot)
     else:
